@@ -127,7 +127,8 @@ def run_case(cls, key, seed, ctx):
         return
     if cls == "fairness":
         for fname in ("demographic_parity_difference", "demographic_parity_ratio", "equal_opportunity_difference",
-                      "equal_opportunity_ratio", "equalized_odds_difference", "equalized_odds_ratio"):
+                      "equal_opportunity_ratio", "equalized_odds_difference", "equalized_odds_ratio",
+                      "selection_rate_difference", "true_positive_rate_ratio", "false_positive_rate_difference", "accuracy_score_difference"):
             f = getattr(M, fname)
             method = gen.pick(rng, ["between_groups", "to_overall"])
             extra = {"agg": gen.pick(rng, ["worst_case", "mean"])} if fname.startswith("equalized") else {}
